@@ -43,7 +43,10 @@ def any_nonok(r):
 
 def c17_violation(r):
     v = r["verdict"]
-    return v.startswith("asan") or v.startswith("crash:signal") or bool(r.get("ubsan")) or v == "ubsan"
+    # collective-count-mismatch / truncation: the ranks disagree about the size of a buffer that crosses MPI - in real MPI the
+    # receiver then reads or writes beyond what was transferred (undefined behaviour at the MPI level)
+    return (v.startswith("asan") or v.startswith("valgrind") or v.startswith("crash:signal") or bool(r.get("ubsan")) or v == "ubsan"
+            or v in ("collective-count-mismatch", "truncation"))
 
 # small dispatcher configurations whose interleaving space is sampled densely; the evidence reports how the number of
 # distinct interleavings grows with the number of runs (a flat tail = the space reachable by the simulator is saturated)
@@ -67,9 +70,9 @@ CHECKS = {
     "C06": {
         "parts": {
             "quick": [dict(harness="c06_parallel", variant="plain", runs=20000, tl=120)],
-            "thorough": [dict(harness="c06_parallel", variant="plain", runs=400000, tl=1500),
+            "thorough": [dict(harness="c06_parallel", variant="plain", runs=400000, tl=1500, cfg="big=1"),
                          dict(harness="c06_parallel", variant="san", runs=40000, tl=500),
-                         dict(harness="c06_parallel", variant="plain", complex=True, runs=40000, tl=400)],
+                         dict(harness="c06_parallel", variant="plain", complex=True, runs=40000, tl=400, cfg="big=1")],
         },
         "is_violation": any_nonok,
         "workload_keys": ["calls", "hrep", "quads", "freqs", "P", "model", "wf", "nosym", "beta", "mp"],
@@ -93,11 +96,14 @@ CHECKS = {
                       dict(harness="c06_parallel", variant="san", runs=2000, tl=60),
                       dict(harness="c13_container", variant="san", runs=3000, tl=60),
                       dict(harness="c16_dispatch", variant="san", runs=40000, tl=40)],
-            "thorough": [dict(harness="c17_workflow", variant="san", runs=200000, tl=1200),
+            "thorough": [dict(harness="c17_workflow", variant="san", runs=200000, tl=1200, cfg="big=1"),
                          dict(harness="c06_parallel", variant="san", runs=100000, tl=700),
                          dict(harness="c13_container", variant="san", runs=100000, tl=600),
                          dict(harness="c16_dispatch", variant="san", runs=1000000, tl=300),
-                         dict(harness="c17_workflow", variant="san", complex=True, runs=40000, tl=400)],
+                         dict(harness="c17_workflow", variant="san", complex=True, runs=40000, tl=400),
+                         # uninitialised reads (invisible to ASan/UBSan): a subsample under valgrind memcheck, uninstrumented -O1 build
+                         dict(harness="c17_workflow", variant="vg", valgrind=True, runs=3000, tl=600, watchdog=3000),
+                         dict(harness="c06_parallel", variant="vg", valgrind=True, runs=1500, tl=600, watchdog=3000)],
         },
         "is_violation": c17_violation,
         "workload_keys": ["ops", "calls", "hrep", "quads", "freqs", "J", "G", "P", "model", "wf", "nosym", "beta", "mode", "mp"],
@@ -139,7 +145,7 @@ def do_replay(pid, path):
     built = {}
     part = dict(harness=rp["harness"], variant=rp["variant"], complex=rp.get("complex", False))
     exe = exe_for(part, built)
-    r = vlib.run_single(exe, rp["seed"], rp["cfg"], choices=rp["choices"], want_trace=True)
+    r = vlib.run_single(exe, rp["seed"], rp["cfg"], choices=rp["choices"], want_trace=True, wrapper=vlib.VALGRIND if rp.get("valgrind") else None)
     print("replay: harness=%s variant=%s seed=%s" % (rp["harness"], rp["variant"], rp["seed"]))
     print("cfg: %s" % rp["cfg"])
     print("expected: %s | got: %s %s" % (rp["expect"]["verdict"], r["verdict"], r.get("detail", "")))
@@ -178,7 +184,8 @@ def main():
         seed0 = base * 100000000 + pi * 10000000
         nruns = max(16, int(part["runs"] * scale))
         tb = time.time()
-        res, crashes = vlib.run_batch(exe, seed0, nruns, part["tl"] * max(1.0, scale), cfg=part.get("cfg", ""), extra=["--watchdog", str(watchdog_of(part))])
+        res, crashes = vlib.run_batch(exe, seed0, nruns, part["tl"] * max(1.0, scale), cfg=part.get("cfg", ""), extra=["--watchdog", str(watchdog_of(part))],
+                                      wrapper=vlib.VALGRIND if part.get("valgrind") else None)
         for r in res: r["_part"] = pi
         for c in crashes: c["_part"] = pi; c.setdefault("cfg", ""); c.setdefault("hash", "crash"); c.setdefault("stats", {}); c.setdefault("probes", {}); c.setdefault("ubsan", []); c.setdefault("sig", "")
         wall = time.time() - tb
@@ -231,16 +238,19 @@ def main():
         """minimise, gate (two fresh-process replays must agree), write the replay file; returns False if the replay is unstable"""
         nonlocal new_violations
         exe = exe_for(part, built)
+        vlib.CURRENT_WRAPPER = vlib.VALGRIND if part.get("valgrind") else None
         first_for_min = dict(first); first_for_min["verdict"] = cls
         cfg_s, choices, best, nre = vlib.minimise(exe, seed, first_for_min, spec["workload_keys"], classify=classify,
                                                   budget_runs=300 if tier == "quick" else 800, budget_s=90 if tier == "quick" else 300, log=log)
         a = dict(vlib.run_single(exe, seed, cfg_s, choices=choices, want_trace=True)); a["verdict"] = classify(a)
         b = dict(vlib.run_single(exe, seed, cfg_s, choices=choices)); b["verdict"] = classify(b)
         if a["verdict"] != cls or b["verdict"] != cls or a["hash"] != b["hash"]:
+            vlib.CURRENT_WRAPPER = None
             log("minimised replay of seed %s is not stable (%s/%s, %s/%s)" % (seed, a["verdict"], b["verdict"], a["hash"], b["hash"]))
             return False
         k = vlib.match_known(known, cls, a.get("cfg", cfg_s), a.get("detail", ""))
-        rp = dict(property=pid, harness=part["harness"], variant=part["variant"], complex=bool(part.get("complex")), seed=seed, cfg=a.get("cfg") or cfg_s,
+        vlib.CURRENT_WRAPPER = None
+        rp = dict(property=pid, harness=part["harness"], variant=part["variant"], complex=bool(part.get("complex")), valgrind=bool(part.get("valgrind")), seed=seed, cfg=a.get("cfg") or cfg_s,
                   choices=choices, expect=dict(verdict=cls, hash=a["hash"]), detail=a.get("detail", "") or "; ".join(a.get("ubsan", [])[:2]), ubsan=a.get("ubsan", []),
                   original=dict(seed=seed, cfg=first.get("cfg", ""), n_choices=len(first.get("choices") or [])), occurrences_in_batch=len(rs),
                   trace=a.get("trace", "")[-20000:], stderr=a.get("stderr", "")[-4000:] if cls != "ok" else "")
@@ -262,7 +272,7 @@ def main():
         done = False
         for r0 in cands[:8]:
             # gate 1: the failing seed must show the same class when executed alone in a fresh process
-            first = vlib.run_single(exe, r0["seed"], cfg=part.get("cfg") or None, want_choices=True)
+            first = vlib.run_single(exe, r0["seed"], cfg=part.get("cfg") or None, want_choices=True, wrapper=vlib.VALGRIND if part.get("valgrind") else None)
             if cls_of(first) != cls:
                 log("seed %s: class changed on re-execution in a fresh process (%s -> %s); trying another seed of this class" % (r0["seed"], cls, cls_of(first)))
                 continue
